@@ -251,7 +251,13 @@ func (p *parser) parseTokendef() *TokenDef {
 				} else {
 					value = intVar
 				}
-
+				// a string alias may follow the number: NAME 300 "alias"
+				p.next()
+				if p.current.Is(StringKind) {
+					id.Alias = p.current.Value
+				} else {
+					p.backup()
+				}
 			} else if p.current.Is(Charater) || p.current.Is(StringKind) { // get alias
 				id.Alias = p.current.Value
 			} else {
